@@ -44,6 +44,9 @@ type c20Spec struct {
 	HasInc      []bool     `json:"has_inc"`
 	Ext         []bool     `json:"extends_base,omitempty"` // the second file is a shared parent (extends "base.tpl") instead of an include
 	SameSetName bool       `json:"sets_have_equal_names,omitempty"`
+	// OptsOnTpl: the sets keep their default options; the caller switches TrimBlocks on for the
+	// templates it got from the even sets on the template objects themselves (before executing them)
+	OptsOnTpl bool `json:"options_set_on_returned_templates,omitempty"`
 	Loaders     []string   `json:"loaders"`
 	Shared      bool       `json:"sets_share_one_loader_object"`
 	Disk        *DiskSpec  `json:"disk"`
@@ -189,6 +192,7 @@ func c20Gen(tp *Tapes) *c20Spec {
 	sp.strat = pickStrategy(g)
 	sp.Strat = sp.strat.String()
 	sp.SameSetName = nSets > 1 && g.Draw(2) == 1
+	sp.OptsOnTpl = g.Draw(3) == 0
 	if nSets > 1 && g.Draw(2) == 1 {
 		// both sets are handed the very same loader object (a common deployment)
 		sp.Shared = true
@@ -562,7 +566,7 @@ func (c20Checker) Run(tp *Tapes, opt RunOpt) *Outcome {
 			// (a set must be able to ban what another set has banned before)
 			out.addViolation("cross_set_config", "bans", fmt.Sprintf("BanFilter on the fresh set S%d failed: %v", i, err), nil, err.Error())
 		}
-		sets[i].Options.TrimBlocks = i%2 == 0
+		sets[i].Options.TrimBlocks = i%2 == 0 && !sp.OptsOnTpl
 	}
 	var hist []c20HistOp
 	type opKey struct{ task, op int }
@@ -637,7 +641,7 @@ func (c20Checker) Run(tp *Tapes, opt RunOpt) *Outcome {
 								ns = append(ns, sp.spelling(op.Set, n, op.Sp))
 							}
 							if op.Others {
-								ns = append(ns, "never-asked-for.tpl")
+								ns = append(ns, "never-asked-for.tpl", "")
 								for ni := range sp.Names {
 									if sp.HasInc[ni] {
 										ns = append(ns, sp.second(ni))
@@ -885,7 +889,7 @@ func (c20Checker) Run(tp *Tapes, opt RunOpt) *Outcome {
 				if err == nil {
 					got, _ := t.Execute(nil)
 					want := "\nX"
-					if si%2 == 0 {
+					if si%2 == 0 && !sp.OptsOnTpl {
 						want = "X"
 					}
 					if got != want {
@@ -932,6 +936,9 @@ func (c20Checker) Run(tp *Tapes, opt RunOpt) *Outcome {
 				nGets := len(w.Gets)
 				// two executions the engine rejects up front (invalid key, clash with an exported
 				// macro), then the real one: nothing of a set or of a rejected caller may stay behind
+				if sp.OptsOnTpl && cr.set%2 == 0 {
+					t.Options.TrimBlocks = true
+				}
 				t.Execute(pongo2.Context{"bad-key": "v", "g0": "LEAK", "g1": "LEAK"})
 				t.Execute(pongo2.Context{"cm": "v", "g0": "LEAK", "g1": "LEAK"})
 				got, err := t.Execute(nil)
@@ -945,6 +952,20 @@ func (c20Checker) Run(tp *Tapes, opt RunOpt) *Outcome {
 				}
 				if len(w.Gets) != nGets {
 					out.addViolation("hit_touched_loader", "Execute", "executing a cached template fetched from the loader", nil, nil)
+				}
+			}
+			// once more after the returned templates have been configured and executed: what a set
+			// compiles now still follows that set's own options
+			for si, set := range sets {
+				if t, err := set.FromString("{% if true %}\nX{% endif %}"); err == nil {
+					got, _ := t.Execute(nil)
+					want := "\nX"
+					if si%2 == 0 && !sp.OptsOnTpl {
+						want = "X"
+					}
+					if got != want {
+						out.addViolation("cross_set_config", "options", fmt.Sprintf("set S%d renders %q, expected %q (options configured on other templates or sets must not matter)", si, got, want), want, got)
+					}
 				}
 			}
 		}
